@@ -210,8 +210,12 @@ type XORObfuscator struct{}
 
 // TryReveal for XORObfuscator just returns the provided ciphertext without modification
 func (XORObfuscator) TryReveal(cipherText []byte, privateKey [32]byte) ([]byte, error) {
-	if len(cipherText)%2 != 0 || len(cipherText) == 0 {
+	if len(cipherText)%2 != 0 {
 		return nil, errors.New("Unexpected message with even length")
+	}
+	if len(cipherText) == 0 {
+		// Obfuscate encodes the empty tag as the empty string; reveal it as such.
+		return []byte{}, nil
 	}
 
 	n := len(cipherText) / 2
